@@ -1128,7 +1128,10 @@ def _inline_pass(raw, first):
         if b["id"] in ids:
             continue
         still |= {r for _, r in _call_targets(b, ids)}
-    gone = sorted(ids - still)
+    # (only what was actually inlined somewhere: a trait method of a new type that nobody in the crate calls statically -- a serde
+    # visitor, say -- is an entry point of its own and stays)
+    was_inlined = {r for b in bodies for r in b.get("inlined", [])}
+    gone = sorted((ids - still) & was_inlined)
     raw["bodies"] = [b for b in bodies if b["id"] not in set(gone)]
     raw["inlined_helpers"] = sorted(set(raw.get("inlined_helpers", [])) | set(gone))
     return gone
